@@ -376,6 +376,12 @@ def gen_cases(rng, tier):
                                 [[b'--doer', b'--dump-memory-usage'], key, False], [[b'--doer', b'--port', b'70000'], key, False]):
         cases.append({'family': 'doer', 'kind': 'direct', 'setup': [], 'argv': [cl.hx(a) for a in argv], 'stdin': cl.hx(stdin), 'place': 'LL',
                       'listen': listen, 'timeout': 20})
+    # argument values that are not valid Unicode, in every position where a value is taken (a path-like option may accept them: then every
+    # later use of the value - an error message about a missing or malformed file included - must cope)
+    for argv in ([b'--spec', b'caf\xe9.yaml'], [b'--spec=caf\xe9.yaml'], [b'--spec', b'\xff\xfe'], [b'--spec', b'dir.yaml/\x80'], [b'--spec', b's/\xe9'],
+                 [b's', b'd', b'--filter', b'-\xff'], [b's', b'd', b'--filter', b''], [b's', b'd', b'--filter', b'\xc3\xa9tude.*'], [b's', b'd', b'--filter', b'\xe2\x82\xac'],
+                 [b's\xff', b'd'], [b's', b'd\xfe/'], [b's', b'd', b'--log-filter', b'\xff'], [b's', b'd', b'--remote-port', b'\xff']):
+        cases.append({'family': 'args', 'kind': 'boss', 'setup': cl.ARGS_SETUP, 'argv': [cl.hx(a) for a in argv], 'place': 'LL', 'listen': False, 'timeout': 20})
     for kind in ['names', 'times', 'special', 'roots', 'deep', 'mixed', 'longnames']:
         for _ in range(6):
             cases.append(cl.gen_tree_case(rng, kind))
